@@ -85,6 +85,34 @@ CHECKS = {
    note="Duplicate delivery on client retry is not judged."),
 }
 
+# additions of the third session, appended to the level text / technique
+EXTRA_TEXT = {
+ "C01": " One live soak per run executes in a worker built with the Go race detector (other timing for the same oracle; reports go to coverage.race_detector, never a verdict).",
+ "C02": " Live soaks with paced submitters (20+ blocks re-read by concurrent readers while submissions go on), one with several readers per node hammering the block API (a worker that dies of a runtime fatal error in Node.GetBlock is the violation node-dies-while-reporting-a-delivered-block; fixed finding a0705e5), one under the Go race detector (reports in coverage.race_detector, never a verdict).",
+ "C03": " Creator clocks decades ahead of the executing machine's clock (all / half of the creators) and the block time of the reference execution compared with the median the DAG defines.",
+ "C05": " One storage fault per history in the consensus pass that follows the insertion of a node's own event (only the network-wide half of C05 is judged for the faulted node). Live soaks with paced submitters, one under the Go race detector; a soak whose watchdog expires is decided on node state (all idle and a transaction missing = dropped), otherwise inconclusive.",
+ "C08": " Validly signed forks of the Byzantine validator with hostile indexes in requests and responses (must be refused without harm). One TCP case under the Go race detector / checkptr, where timing-dependent probes are inconclusive and process death is decisive.",
+ "C10": " For every block a full-history node delivers, a valid signature by every identity outside the replayed validator set of its round (former, future, not-yet-effective validators) is put through the node's signature pool and must not be recorded.",
+ "C11": " Histories with 40-70 KB transactions (replay batches of megabytes); restarts with fast-sync enabled whose fast-forward request nobody answers (fixed finding 1dd4887).",
+ "C14": " A third of the forged responses carry decoy entries under known validators' keys in the signature map (junk, random numbers, the validator's genuine signature of another block), which endorse nothing.",
+ "C17": " Live cases also run under the Go race detector (reports in coverage.race_detector, never a verdict).",
+ "C18": " Honest clocks decades ahead of the executing machine's clock in a share of the synthetic DAGs.",
+ "C19": " DAGs in which a validator is removed by a scripted set change and keeps gossiping: every recorded witness must belong to its round's set and every round increment is recounted over validators only.",
+ "C20": " Proxy pairs also run under the Go race detector (reports in coverage.race_detector, never a verdict).",
+}
+EXTRA_TECH = {
+ "C01": "; live soak also under the Go race detector (informational)",
+ "C02": "; live soaks with concurrent readers, also under the Go race detector (informational; worker death is decisive)",
+ "C05": "; live soaks also under the Go race detector (informational)",
+ "C08": "; TCP tier also under the Go race detector / checkptr",
+ "C17": "; live cases also under the Go race detector (informational)",
+ "C20": "; also under the Go race detector (informational)",
+}
+for _k, _v in EXTRA_TEXT.items():
+    CHECKS[_k]["text"] += _v
+for _k, _v in EXTRA_TECH.items():
+    CHECKS[_k]["technique"] += _v
+
 REASONS_NOT_YET = "check not built yet in this session (planned; see DESIGN.md)"
 
 ALL = ["C%02d" % i for i in range(1, 21)]
@@ -141,7 +169,7 @@ def main():
         ],
         "checks": checks,
         "not_applicable": [{"property_id": p, "reason": REASONS_NOT_YET} for p in ALL if p not in CHECKS],
-        "notes": "Technique family: runtime monitoring. Every check rebuilds the harness against /repo's working tree with -tags verif. Exit 0 held / 1 violation / 2 broken or vacuous. Known findings: /verif/known_findings.json.",
+        "notes": "Technique family: runtime monitoring and sanitizers. Every check rebuilds the harness against /repo's working tree with -tags verif, once plain and once with the Go race detector (cases marked race=1; reports are evidence, never a verdict). Exit 0 held / 1 violation / 2 broken or vacuous. Known findings: /verif/known_findings.json.",
     }
     json.dump(m, open("/verif/MANIFEST.json", "w"), indent=1)
     print("wrote MANIFEST.json with", len(checks), "checks")
